@@ -386,6 +386,7 @@ def run_check(spec, tier, seed, workers=None, runs=None, budget_s=None, out=sys.
                     pool_broken = repr(e)
     wall_search = time.time() - t0
     rc = 0
+    regress_err = False
     lines = []
     # ---- known findings: replay stored scenarios
     known_reports = []
@@ -404,6 +405,20 @@ def run_check(spec, tier, seed, workers=None, runs=None, budget_s=None, out=sys.
             known_reports.append({'id': kf.get('id'), 'clause': kf['clause'], 'tag': kf['tag'],
                                   'reproduced': False})
             lines.append('NOTE: known finding %s no longer reproduces from its replay file' % kf.get('id'))
+    # ---- regression corpus: replays of repaired defects must stay quiet
+    for kf in known:
+        if kf.get('property') != spec.pid or kf.get('status') != 'fixed' or not kf.get('replay'):
+            continue
+        path = os.path.join(VERIF, kf['replay'])
+        rep, viols, info, herr = replay_file(spec, path)
+        if herr is not None:
+            lines.append('HARNESS-ERROR: regression replay %s: %s' % (kf['replay'], herr))
+            regress_err = True
+        if viols:
+            lines.append('VIOLATION property=%s replay=%s' % (spec.pid, kf['replay']))
+            lines.append('  repaired defect %s is back: %s %s' % (kf.get('id'), viols[0]['clause'], viols[0]['msg']))
+            rc = 1
+        known_reports.append({'id': kf.get('id'), 'status': 'fixed', 'replayed': True, 'violates': bool(viols)})
     # ---- violations found by exploration
     new_viols = []
     suppressed = {}
@@ -437,7 +452,7 @@ def run_check(spec, tier, seed, workers=None, runs=None, budget_s=None, out=sys.
         replays.append(rel)
         rc = 1
     herr_rc = 0
-    if agg['n_harness_errors'] or pool_broken:
+    if agg['n_harness_errors'] or pool_broken or regress_err:
         herr_rc = 2
         lines.append('HARNESS-ERROR: %d runs raised inside the harness; pool=%s' % (agg['n_harness_errors'], pool_broken))
         for h in agg['harness_errors'][:2]:
